@@ -352,10 +352,17 @@ func (c *Ctx) clockUse(info *types.Info, call *ast.CallExpr, stack []ast.Node, r
 				// guarded by seed == -1 ?
 				for i := stmtIdx - 1; i >= 0; i-- {
 					if is, ok := stack[i].(*ast.IfStmt); ok {
-						if be, ok := unparen(is.Cond).(*ast.BinaryExpr); ok && be.Op == token.EQL && identObj(info, be.X) == o {
-							if tv, ok := info.Types[be.Y]; ok && tv.Value != nil && constant.Compare(tv.Value, token.EQL, constant.MakeInt64(-1)) {
-								c.OK("RANDSRC", key+"/seed-default", call.Pos(), "clock feeds the seed only when no seed was given (seed == -1)")
-								return
+						// `seed == -1` / `-1 == seed` with the store in the then-branch, or `seed != -1` with it in the else-branch
+						if be, ok := unparen(is.Cond).(*ast.BinaryExpr); ok && (be.Op == token.EQL || be.Op == token.NEQ) {
+							inThen := is.Body.Pos() <= s.Pos() && s.End() <= is.Body.End()
+							for _, pr := range [][2]ast.Expr{{be.X, be.Y}, {be.Y, be.X}} {
+								if identObj(info, pr[0]) != o {
+									continue
+								}
+								if tv, ok := info.Types[pr[1]]; ok && tv.Value != nil && constant.Compare(tv.Value, token.EQL, constant.MakeInt64(-1)) && ((be.Op == token.EQL) == inThen) {
+									c.OK("RANDSRC", key+"/seed-default", call.Pos(), "clock feeds the seed only when no seed was given (seed == -1)")
+									return
+								}
 							}
 						}
 					}
